@@ -788,59 +788,79 @@ func postData(req *http.Request, logBody bool) (*PostData, error) {
 		br = httputil.NewChunkedReader(rc)
 	}
 
-	switch mt {
-	case "multipart/form-data":
-		mpr := multipart.NewReader(br, ps["boundary"])
-
-		for {
-			p, err := mpr.NextPart()
-			if err == io.EOF {
-				break
-			}
-			if err != nil {
-				return nil, err
-			}
-			defer p.Close()
-
-			body, err := ioutil.ReadAll(p)
-			if err != nil {
-				return nil, err
-			}
-
-			pd.Params = append(pd.Params, Param{
-				Name:        p.FormName(),
-				Filename:    p.FileName(),
-				ContentType: p.Header.Get("Content-Type"),
-				Value:       string(body),
-			})
-		}
-	case "application/x-www-form-urlencoded":
-		body, err := ioutil.ReadAll(br)
-		if err != nil {
-			return nil, err
-		}
-
-		vs, err := url.ParseQuery(string(body))
-		if err != nil {
-			return nil, err
-		}
-
-		for n, vs := range vs {
-			for _, v := range vs {
-				pd.Params = append(pd.Params, Param{
-					Name:  n,
-					Value: v,
-				})
-			}
-		}
-	default:
-		body, err := ioutil.ReadAll(br)
-		if err != nil {
-			return nil, err
-		}
-
-		pd.Text = string(body)
+	body, err := ioutil.ReadAll(br)
+	if err != nil {
+		return nil, err
 	}
 
+	// Parameters can only be parsed out of a well-formed body that is not
+	// content-coded; any other body is logged as text instead of failing the
+	// exchange (or logging parameters made of compressed bytes).
+	if req.Header.Get("Content-Encoding") == "" {
+		var params []Param
+		var perr error
+
+		switch mt {
+		case "multipart/form-data":
+			params, perr = multipartParams(body, ps["boundary"])
+		case "application/x-www-form-urlencoded":
+			params, perr = formParams(body)
+		}
+
+		if params != nil && perr == nil {
+			pd.Params = params
+			return pd, nil
+		}
+	}
+
+	pd.Text = string(body)
+
 	return pd, nil
+}
+
+func multipartParams(body []byte, boundary string) ([]Param, error) {
+	params := []Param{}
+	mpr := multipart.NewReader(bytes.NewReader(body), boundary)
+
+	for {
+		p, err := mpr.NextPart()
+		if err == io.EOF {
+			return params, nil
+		}
+		if err != nil {
+			return nil, err
+		}
+
+		value, err := ioutil.ReadAll(p)
+		p.Close()
+		if err != nil {
+			return nil, err
+		}
+
+		params = append(params, Param{
+			Name:        p.FormName(),
+			Filename:    p.FileName(),
+			ContentType: p.Header.Get("Content-Type"),
+			Value:       string(value),
+		})
+	}
+}
+
+func formParams(body []byte) ([]Param, error) {
+	vs, err := url.ParseQuery(string(body))
+	if err != nil {
+		return nil, err
+	}
+
+	params := []Param{}
+	for n, vs := range vs {
+		for _, v := range vs {
+			params = append(params, Param{
+				Name:  n,
+				Value: v,
+			})
+		}
+	}
+
+	return params, nil
 }
